@@ -639,6 +639,75 @@ impl Fam for OptUnions {
 	}
 }
 
+#[derive(Serialize, Deserialize, Debug, Clone)]
+pub struct IntsAsDecimals {
+	a: i64,
+	/// presented to the serializer as an `i32`; integers narrower than 64 bits are not offered as
+	/// targets for decimals by the deserializer, so it is read back as an `i64`
+	#[serde(serialize_with = "ser_as_i32")]
+	b: i64,
+	c: u64,
+	d: i128,
+	e: i64,
+	/// an integer presented under a decimal of scale 2 (read back as a `Decimal`: integer targets
+	/// are only offered for scale 0)
+	#[serde(serialize_with = "ser_dec_as_i64")]
+	f: rust_decimal::Decimal,
+	z: i32,
+}
+fn ser_dec_as_i64<Se: serde::Serializer>(v: &rust_decimal::Decimal, s: Se) -> Result<Se::Ok, Se::Error> {
+	use rust_decimal::prelude::ToPrimitive;
+	s.serialize_i64(v.to_i64().expect("integer-valued by construction"))
+}
+fn ser_as_i32<Se: serde::Serializer>(v: &i64, s: Se) -> Result<Se::Ok, Se::Error> {
+	s.serialize_i32(*v as i32)
+}
+impl Fam for IntsAsDecimals {
+	const NAME: &'static str = "plain Rust integers under decimal schemas (bytes and fixed, scale 0 and 2)";
+	fn schema() -> S {
+		S::record(
+			"IntsAsDecimals",
+			vec![
+				("a", S::decimal_bytes(30, 0)),
+				("b", S::decimal_bytes(30, 0)),
+				("c", S::decimal_bytes(30, 0)),
+				("d", S::decimal_bytes(30, 0)),
+				("e", S::decimal_fixed("ns.DecI", 16, 30, 0)),
+				("f", S::decimal_bytes(30, 2)),
+				("z", S::Int),
+			],
+		)
+	}
+	fn values() -> Vec<Self> {
+		// magnitudes around every whole-byte boundary of the two's-complement representation
+		let mut xs: Vec<i64> = vec![0, 1, -1];
+		for bits in [7u32, 8, 15, 16, 23, 24, 31, 32, 39, 40, 47, 48, 55, 56, 62] {
+			let p = 1i64 << bits;
+			xs.extend([p - 1, p, p + 1, -p + 1, -p, -p - 1]);
+		}
+		xs.extend([i64::MAX, i64::MIN, i64::MIN + 1]);
+		xs.into_iter()
+			.map(|x| IntsAsDecimals { a: x, b: x as i32 as i64, c: x as u64, d: (x as i128) * 3, e: x.wrapping_neg(), f: rust_decimal::Decimal::new(x / 128, 0), z: -65 })
+			.collect()
+	}
+	fn to_r(&self) -> R {
+		let b = |v: i128| R::Bytes(vmodel::value::i128_to_be_min(v));
+		R::Record(vec![
+			b(self.a as i128),
+			b(self.b as i128),
+			b(self.c as i128),
+			b(self.d),
+			R::Fixed(vmodel::value::i128_to_be_sized(self.e as i128, 16).unwrap()),
+			b({
+				let mut d = self.f;
+				d.rescale(2);
+				d.mantissa()
+			}),
+			R::Int(self.z),
+		])
+	}
+}
+
 #[derive(Serialize, Deserialize, Debug, Clone, PartialEq)]
 pub struct Borrowed<'a> {
 	s: &'a str,
@@ -798,8 +867,9 @@ pub fn run_all(cover: &mut Cover, out: &mut Vec<Violation>) {
 	run_family::<WithNewtypes>(cover, out, None);
 	run_family::<Tuples>(cover, out, None);
 	run_family::<OptUnions>(cover, out, None);
+	run_family::<IntsAsDecimals>(cover, out, None);
 	run_borrowed(cover, out);
-	cover.count("typed_families", 15);
+	cover.count("typed_families", 16);
 }
 
 pub fn replay(family: &str, idx: usize) -> Vec<Violation> {
@@ -813,7 +883,7 @@ pub fn replay(family: &str, idx: usize) -> Vec<Violation> {
 			}
 		)*};
 	}
-	try_fam!(Prim, Floats, Widths, Opts, UnionNewtype, UnionStructVariant, WithEnum, Colls, List, Tree, Logicals, WithNewtypes, Tuples, OptUnions);
+	try_fam!(Prim, Floats, Widths, Opts, UnionNewtype, UnionStructVariant, WithEnum, Colls, List, Tree, Logicals, WithNewtypes, Tuples, OptUnions, IntsAsDecimals);
 	run_borrowed(&mut cover, &mut out);
 	out
 }
